@@ -131,6 +131,11 @@ func (fx *fnExec) callStatic0(callee *ssa.Function, args []Val, bindings []Val, 
 			// executing the body for evaluation/search: loops are unrolled, not cut at invariants
 			tmp := *c
 			tmp.Loops = map[int]*LoopSpec{}
+			for k, ls := range c.Loops {
+				if ls.Unroll > 0 {
+					tmp.Loops[k] = &LoopSpec{Unroll: ls.Unroll} // complete-unrolling bounds stay in force
+				}
+			}
 			c = &tmp
 		}
 		v, out := ex.runFunc(callee, args, bindings, st, false, c)
